@@ -675,3 +675,26 @@ PROPS["E02"] = dict(
     rule="seeded bundles of 1..5 modules (1..3 lines each, ASCII / 2-byte / astral characters, empty slots) with an index map whose sections sit at the modules' starting lines; distinct = distinct case",
     assumptions=COMMON_ASSUMPTIONS,
 )
+
+def _corrupt_e04(e):
+    o = e["out"]
+    if e["op"] == "typed":
+        o["regular"] = "ok" if o["regular"] != "ok" else "err"
+        return True
+    o["flat1"]["k"] = "err" if o["flat1"]["k"] == "ok" else "ok"
+    return True
+
+PROPS["E04"] = dict(
+    level="exploration",
+    level_text="extension: typed entry points (from_slice/from_reader of SourceMap, SourceMapIndex, SourceMapHermes: own kind or IncompatibleSourceMap) and sections resolved after decoding (set_sourcemap / set_url / set_file, flatten before/after), specified as found in IndexExt.tla on top of IndexMap!FlattenIdx",
+    level_note="beyond the listed properties; not registered in MANIFEST.json",
+    technique="TLA+ as-found specification composed from Doc/IndexMap, trace validation",
+    mc=[dict(module="MC_IndexMap", cfg="MC_IndexMap_quick.cfg", tiers=("quick", "thorough"), workers=4, gen=False)],
+    trace="Trace_E04",
+    selftest_include_free=True,
+    drive=dict(quick=dict(n=600, size=3), thorough=dict(n=12000, size=5)),
+    nontrivial=lambda e: True,
+    corrupt=_corrupt_e04,
+    rule="seeded regular / Hermes / index documents through the three typed entry points; seeded indexes with one URL-only section and a map plugged in afterwards",
+    assumptions=COMMON_ASSUMPTIONS,
+)
